@@ -180,6 +180,14 @@ Theorem shipped_api_routed : forall c m r,
 Proof. exact shipped_api_routed_l. Qed.
 Print Assumptions shipped_api_routed.
 
+(* The lifecycle model lets an overlay act only through its listeners, its live tasks, its open transports and
+   (routed) API steps.  That presupposes that the overlay's code starts no task outside its task manager's reach:
+   every ensure_future / create_task in the overlays' modules (table regenerated from the source) is registered
+   with the task manager, or plainly awaited / returned by the function that made it. *)
+Theorem shipped_futures_owned : forallb (fun r => snd r) future_sites = true.
+Proof. exact shipped_futures_owned_l. Qed.
+Print Assumptions shipped_futures_owned.
+
 (* ---------------------------------------------------------------- (iv) the IPv8 service object *)
 
 (* From any state of the service: after unload_overlay(x) (steps regenerated from the source), in
